@@ -150,6 +150,9 @@ func (in *inliner) textOf(n ast.Node) rope {
 
 // identText is textOf for an expression that may itself be a substituted identifier.
 func (in *inliner) exprText(x ast.Expr) rope {
+	if r, ok := in.exprRepl[x]; ok {
+		return r
+	}
 	if id, ok := x.(*ast.Ident); ok && len(in.subst) > 0 {
 		if info := in.infoOf[in.fname(x.Pos())]; info != nil {
 			if r, ok := in.subst[info.Uses[id]]; ok && info.Uses[id] != nil {
@@ -365,7 +368,13 @@ func (in *inliner) conv(list []ast.Stmt, lhs []string, s *inlSite) rope {
 	for i, st := range list {
 		switch t := st.(type) {
 		case *ast.ReturnStmt:
-			if len(lhs) > 0 && len(t.Results) > 0 {
+			allBlank := true
+			for _, l := range lhs {
+				if l != "_" {
+					allBlank = false
+				}
+			}
+			if len(lhs) > 0 && len(t.Results) > 0 && !allBlank {
 				out = append(out, glue(strings.Join(lhs, ", ")+" = ", t.Pos(), s.id)...)
 				for j, r := range t.Results {
 					if j > 0 {
@@ -375,23 +384,32 @@ func (in *inliner) conv(list []ast.Stmt, lhs []string, s *inlSite) rope {
 				}
 				nl()
 			} else if len(t.Results) > 0 {
-				// results discarded by the caller (statement call of a value-returning helper)
-				nb := len(t.Results)
-				if nb == 1 && s.nres > 1 {
-					nb = s.nres
-				}
-				blanks := make([]string, nb)
-				for j := range blanks {
-					blanks[j] = "_"
-				}
-				out = append(out, glue(strings.Join(blanks, ", ")+" = ", t.Pos(), s.id)...)
-				for j, r := range t.Results {
-					if j > 0 {
-						out = append(out, glue(", ", t.Pos(), s.id)...)
+				// results discarded by the caller (statement call of a value-returning helper):
+				// only expressions that do something are kept
+				info := in.infoOf[in.fname(t.Pos())]
+				if len(t.Results) == 1 && s.nres > 1 {
+					blanks := make([]string, s.nres)
+					for j := range blanks {
+						blanks[j] = "_"
 					}
-					out = append(out, in.exprText(r)...)
+					out = append(out, glue(strings.Join(blanks, ", ")+" = ", t.Pos(), s.id)...)
+					out = append(out, in.exprText(t.Results[0])...)
+					nl()
+				} else {
+					for _, r := range t.Results {
+						if info != nil {
+							if tv := info.Types[r]; tv.IsNil() || tv.Value != nil {
+								continue
+							}
+						}
+						if _, isId := ast.Unparen(r).(*ast.Ident); isId {
+							continue
+						}
+						out = append(out, glue("_ = ", t.Pos(), s.id)...)
+						out = append(out, in.exprText(r)...)
+						nl()
+					}
 				}
-				nl()
 			}
 			return out
 		case *ast.IfStmt:
@@ -712,6 +730,14 @@ func (in *inliner) exprPure(info *types.Info, x ast.Expr) bool {
 		return ok
 	})
 	return ok
+}
+
+func flatten(r rope) string {
+	var sb strings.Builder
+	for _, p := range r {
+		sb.WriteString(p.s)
+	}
+	return sb.String()
 }
 
 func typeStr(t types.Type, q types.Qualifier) string { return types.TypeString(t, q) }
@@ -1165,10 +1191,19 @@ func (in *inliner) emitSite0(s *inlSite) (rope, bool) {
 			wrapOuter = true
 		}
 		for _, l := range as.Lhs {
-			lhs = append(lhs, exprString(l))
+			lt := flatten(in.exprText(l))
+			if id, ok := l.(*ast.Ident); ok {
+				// a definition that an enclosing expansion renamed
+				if o := info.Defs[id]; o != nil {
+					if r, sub := in.subst[o]; sub {
+						lt = flatten(r)
+					}
+				}
+			}
+			lhs = append(lhs, lt)
 			if id, ok := l.(*ast.Ident); ok && as.Tok == token.DEFINE && id.Name != "_" {
 				if o := info.Defs[id]; o != nil {
-					pre = append(pre, g("var %s %s\n", id.Name, typeStr(o.Type(), q))...)
+					pre = append(pre, g("var %s %s\n", lt, typeStr(o.Type(), q))...)
 				}
 			}
 		}
@@ -1392,7 +1427,7 @@ func (in *inliner) findSites() {
 					}
 				}
 			case *ast.IfStmt:
-				if as, ok := t.Init.(*ast.AssignStmt); ok && as.Tok == token.DEFINE && len(as.Rhs) == 1 {
+				if as, ok := t.Init.(*ast.AssignStmt); ok && (as.Tok == token.DEFINE || as.Tok == token.ASSIGN) && len(as.Rhs) == 1 {
 					if c, ok := as.Rhs[0].(*ast.CallExpr); ok {
 						for _, l := range as.Lhs {
 							if _, ok := l.(*ast.Ident); !ok {
@@ -1457,9 +1492,28 @@ func (in *inliner) findSites() {
 				}
 			}
 		}
+		// only statements that are elements of a statement list can be replaced by a block
+		listStmt := map[ast.Stmt]bool{}
+		ast.Inspect(fn.Decl.Body, func(m ast.Node) bool {
+			switch t := m.(type) {
+			case *ast.BlockStmt:
+				for _, x := range t.List {
+					listStmt[x] = true
+				}
+			case *ast.CaseClause:
+				for _, x := range t.Body {
+					listStmt[x] = true
+				}
+			case *ast.CommClause:
+				for _, x := range t.Body {
+					listStmt[x] = true
+				}
+			}
+			return true
+		})
 		walkWithLits(fn.Decl.Body, func(m ast.Node, lits []*ast.FuncLit) {
 			st, ok := m.(ast.Stmt)
-			if !ok {
+			if !ok || !listStmt[st] {
 				return
 			}
 			for _, cd := range classify(st) {
@@ -1480,7 +1534,7 @@ func (in *inliner) findSites() {
 				if s.lit == nil {
 					obj := Callee(info, call)
 					ci := p.FuncOf(obj)
-					if ci == nil || ci.Pkg != fn.Pkg || ci == fn || (obj != nil && in.protected[obj.FullName()]) || isExported(ci.Decl.Name.Name) {
+					if ci == nil || ci.Pkg != fn.Pkg || ci == fn || (obj != nil && in.protected[obj.FullName()]) || (isExported(ci.Decl.Name.Name) && os.Getenv("TVC_NO_INLINE_EXPORTED") != "") {
 						continue
 					}
 					if ci.Decl.Recv != nil {
@@ -1805,6 +1859,9 @@ func Normalise(p *Prog, o LoadOpts, protected map[string]bool) (*Prog, []string)
 				os.WriteFile(filepath.Join(os.Getenv("TVC_DEBUG_INLINE"), strings.ReplaceAll(strings.TrimPrefix(name, p.Repo+"/"), "/", "_")), b, 0o644)
 			}
 			fmt.Fprintln(os.Stderr, err)
+			if os.Getenv("TVC_DEBUG_STOP") != "" {
+				os.Exit(3)
+			}
 		}
 		if disabled == 0 {
 			break
